@@ -295,6 +295,9 @@ def real_upd_kwargs(u):
         if a is None:
             continue
         if a[0] == "static":
+            if k == "time" and u.get("naive_time"):
+                kw["time"] = dt_of(a[1]).astimezone().replace(tzinfo=None)          # documented: a naive datetime means local time
+                continue
             kw[names[k]] = (u.get("dt") or zoned_dt(a[1])) if k == "time" else (dict(a[1]) if isinstance(a[1], dict) else a[1])
         else:
             kw[names[k]] = tabs[k][a[1]]
